@@ -110,7 +110,7 @@ Lemma sys_step_total s now i o : sys_ok s ->
 Proof.
   intros Hok. unfold sys_step.
   destruct (nth_error (s_bars s) (N.to_nat i)) as [b|]; [|eexists _, _; split; [reflexivity|auto]].
-  destruct o as [d|d|q| |m|l| ].
+  destruct o as [d|d|q| |m|l|px| ].
   1-3: apply via_ap_total; exact Hok.
   all: match goal with |- context [sys_request ?s0 ?k ?x ?n] =>
          destruct (sys_request_total s0 k x n Hok) as (s' & fr & -> & H1 & H2 & H3) end;
@@ -207,7 +207,7 @@ Proof.
   - assert (Hlt : (N.to_nat i <? length (s_bars s))%nat = true).
     { apply Nat.ltb_lt. apply nth_error_Some. rewrite Enth. discriminate. }
     rewrite Hlt. cbn [andb].
-    destruct o as [d|d|q| |m|l| ].
+    destruct o as [d|d|q| |m|l|px| ].
     1-3: unfold via_ap;
       match goal with |- context [ap_allow ?a ?n] =>
         destruct (ap_allow_total a n) as (a' & v & -> & _) end;
@@ -449,12 +449,12 @@ Proof.
   intros Hok HIeq Hp Hnth Hapok Hst Hpp Hlo Hu.
   assert (Hp' : rl_prev r <= t) by lia.
   unfold sys_step. cbn [s_bars]. rewrite Hnth.
-  destruct o as [d|d|q| |m|l| ].
+  destruct o as [d|d|q| |m|l|px| ].
   1-3: match goal with |- context [via_ap _ _ ?x _] =>
          destruct (via_ap_gen I multi r bars (N.to_nat i) x t) as (r' & b' & re & fr & H & H1 & H2 & H3 & H4 & H5 & H6 & H7);
            cbn [with_pos m_ap]; try assumption; try lia;
          exists r', b', re, fr; (split; [exact H|]); cbn [with_pos m_ap] in *; splits; assumption end.
-  1-3: match goal with |- context [sys_request _ _ ?x _] =>
+  1-4: match goal with |- context [sys_request _ _ ?x _] =>
          destruct (request_gen I multi r bars (N.to_nat i) x t Hok HIeq Hp') as (r' & b' & fr & Hreq & Hap & Hok' & HI' & Hp1 & Hnone);
          rewrite Hreq; exists r', b', true, fr; (split; [reflexivity|]);
          rewrite Hap; cbn [m_ap]; splits; try assumption; try reflexivity; try lia;
